@@ -238,6 +238,7 @@ def all_families(nws=(1, 2, 3)):
         out += [request_reply(nw, 1), request_reply(nw, 2), message_during_spawn(nw), send_to_finished(nw), filter_fails(nw),
                 abandoned_await(nw), abandoned_await_msg(nw)]
         out += heap_cases(nw)
+        out += [bin_final_send(nw), bin_final_send_tuple(nw)]
         out += ref_cases(nw)
         out += resource_cases(nw)
     return out
@@ -466,3 +467,21 @@ def abandoned_await_msg(nw=2):
                [select(1, recv()), ret(c(I(22)))],
                [send(1, c(I(7))), ret(OKE)]]
     return meta(scenario("abandoned_await_msg_w%d" % nw, scripts, nw=nw, maxtick=1), False, True, ["C04", "C05"], large=True)
+
+
+def bin_final_send(nw=2):
+    # the LAST step of the entry process sends a freshly built binary: the process completes in the very
+    # slice that returns the Deliver action (seeded change C06-1: reclaiming at completion empties the slot
+    # before the worker has copied the in-flight message)
+    scripts = [[spawn(1, 2), spawn(2, 3, r(1)), retsend(1, hb(170, 187))],
+               [select(1, recv(("bin",))), ret(t(r(1), r(1)))],
+               [select(2, aw(1)), ret(r(2))]]
+    return meta(scenario("bin_final_send_w%d" % nw, scripts, nw=nw), True, True, ["C06"])
+
+
+def bin_final_send_tuple(nw=2):
+    # same with the binary nested in a tuple and a second binary that stays referenced
+    scripts = [[let(3, hb(1, 2, 3)), spawn(1, 2), spawn(2, 3, r(1), r(3)), retsend(1, t(hb(9, 8), hb(7)))],
+               [select(1, recv(("btup",))), ret(r(1))],
+               [select(3, aw(1)), ret(t(r(3), r(2)))]]
+    return meta(scenario("bin_final_send_tuple_w%d" % nw, scripts, nw=nw), True, True, ["C06"])
